@@ -600,9 +600,51 @@ func (in *inst) checkDataset(ds, prefix string, filter *queryFilter, replies []r
 	}
 }
 
+// ---- liveness of the forwarding pipeline under the configured strategy choices ----
+
+// strategyProbe passes one fresh Interest under every prefix that currently has a strategy choice
+// through the real forwarding thread's Interest pipeline, the way a packet from the second
+// application face gets there: whatever strategy name management accepted and stored, forwarding a
+// packet under that prefix must not crash the daemon (the forwarding threads have no recover).
+// What the pipeline sends is dropped; the PIT entry it leaves is visible only through the entry
+// counts, which the dataset oracle reads from the thread itself.
+func (in *inst) strategyProbe(c *cmd, bad func(string, string, string)) {
+	type sc struct{ name, strategy enc.Name }
+	var all []sc
+	for _, e := range table.FibStrategyTable.GetAllForwardingStrategies() {
+		all = append(all, sc{e.Name(), e.GetStrategy()})
+	}
+	sort.Slice(all, func(i, j int) bool { return all[i].name.Compare(all[j].name) < 0 })
+	for _, e := range all {
+		in.w.seq++
+		name := append(e.name.Clone(), enc.NewStringComponent(enc.TypeGenericNameComponent, fmt.Sprintf("c17-strategy-probe-%d", in.w.seq)))
+		ei, err := spec.Spec{}.MakeInterest(name, &ndn.InterestConfig{Nonce: utils.IdPtr(uint64(0x51000000 + in.w.seq)), Lifetime: utils.IdPtr(4 * vtime.Second)}, nil, nil)
+		if err != nil {
+			panic("HARNESS-BUG: strategy probe: " + err.Error())
+		}
+		wire := ei.Wire.Join()
+		l3, _, err := spec.ReadPacket(enc.NewBufferReader(wire))
+		if err != nil || l3.Interest == nil {
+			panic("HARNESS-BUG: strategy probe does not decode")
+		}
+		p := &defn.Pkt{Name: l3.Interest.NameV, L3: l3, Raw: wire, IncomingFaceID: utils.IdPtr(fApp2)}
+		msg, frame := guard(func() { in.w.thread.VerifInterest(p) })
+		for _, l := range face.FaceTable.GetAll() {
+			if ls, ok := l.(*face.NDNLPLinkService); ok {
+				face.VerifC17DropQueued(ls)
+			}
+		}
+		if msg != "" {
+			bad("C17.alive", fmt.Sprintf("daemon crash: forwarding under a prefix with an accepted strategy choice panics @ %s", frame),
+				fmt.Sprintf("after %s, the strategy choice table holds %s -> %s; one Interest for %s arriving on face %d panics in the forwarding thread (no recover: the daemon dies): %s at %s", c.label, e.name, e.strategy, name, fApp2, msg, frame))
+		}
+	}
+}
+
 // ---- liveness of the faces ----
 
 func (in *inst) exercise(c *cmd, bad func(string, string, string)) {
+	in.strategyProbe(c, bad)
 	// probe 1: a minimal Interest with a forwarder PIT token and a congestion mark: must be emitted
 	probe := in.w.interest(nm("/p"))
 	// probe 2: a Data packet whose outgoing LP header is as large as NDNLP allows (32-byte PIT
